@@ -55,6 +55,8 @@ def configs(tier):
         for m in range(0, k + 1):
             add(group='schedule', k=k, m=m, d=1, q=1, _cost=50 * (m + 1))
     add(group='schedule_defaults')
+    for ell, k in ((2, 2), (3, 2), (2, 3), (1, 1)):
+        add(group='interval_history', ell=ell, k=k, T=5 if tier == 'quick' else 7, d=1, q=2, _cost=400)
     for k in ((1, 2) if tier == 'quick' else (1, 2, 3)):
         add(group='given_storage', k=k, d=1, q=1, _cost=50)
     return cfgs
@@ -306,3 +308,38 @@ def _given_storage(env, cfg, ctx):
         ref, expl = reference_values(env, names, window, model, loss, limp.calls, q, tag=f"_t{t + 1}")
         if ref is not None:
             check_values(env, names, ex.importance_values, ref, expl, tag=f"_t{t + 1}")
+
+
+def _interval_history(env, cfg, ctx):
+    """a fresh IntervalSage over T real calls with every pattern of forced calls: schedule, window and values after each call"""
+    from ixai.imputer import DefaultImputer
+    ell, k, d, q = cfg['ell'], cfg['k'], cfg['d'], cfg['q']
+    names = names_for('str', d)
+    model, loss = UFModel(env, names), UFLoss(env)
+    limp = LoggingImputer(DefaultImputer(model, sym_row(env, names, 'dflt')))
+    ex = guarded(env, 'ctor', IntervalSage, model, names, loss, n_inner_samples=q, interval_length=ell, storage_length=k, imputer=limp)
+    data = []
+    prev = dict(ex.importance_values)
+    for t in range(1, cfg['T'] + 1):
+        force = bool(env.choose(2, label=('force', t)))
+        x, y = sym_row(env, names, f"x{t}"), env.real(f"y{t}")
+        data.append((x, y))
+        model.calls.clear()
+        loss.calls.clear()
+        limp.calls.clear()
+        ret = guarded(env, 'explain_one', ex.explain_one, x, y, force_explain=force, verbose=False)
+        env.claim('ordinal_counted', ex.seen_samples == t)
+        due = force or t % ell == 0
+        recomputed = len(model.calls) > 0 or len(loss.calls) > 0
+        env.claim('recomputed_iff_due_or_forced', recomputed == due, detail=f"call {t}, interval {ell}, forced={force}")
+        window = data[-k:]
+        env.claim('window_is_last_storage_length_observations', len(ex._storage) == len(window) and
+                  all(a is b[0] for a, b in zip(ex._storage.get_data()[0], window)))
+        if recomputed:
+            ref, expl = reference_values(env, names, window, model, loss, limp.calls, q, tag='_hist')
+            if ref is not None:
+                check_values(env, names, ex.importance_values, ref, expl, tag='_hist')
+            prev = dict(ex.importance_values)
+        else:
+            env.claim('previous_values_returned_unchanged', set(ret.keys()) == set(prev.keys()) and
+                      And(*[eq(ret[f], prev[f]) for f in prev]))
